@@ -604,8 +604,15 @@ func (st *DelegationStore) LoadState(state DelegationState) (succeed bool) {
 			blk.Data = append(blk.Data, data)
 		}
 	}
-	// write pending mature amounts to db
-	for height, mature := range blocks {
+	// write pending mature amounts to db, in height order: the order of first writes shapes the state
+	// tree, and the iteration order of a Go map differs from node to node
+	heights := make([]int64, 0, len(blocks))
+	for height := range blocks {
+		heights = append(heights, height)
+	}
+	sort.Slice(heights, func(i, j int) bool { return heights[i] < heights[j] })
+	for _, height := range heights {
+		mature := blocks[height]
 		err := st.SetMatureAmounts(height, mature)
 		if err != nil {
 			return
